@@ -11,7 +11,8 @@ if [ "$1" = "--one" ]; then
     fi
     case $pid in
         C01|C02|C03|C05|C06|C07)
-            also=$(echo "C01 C02 C03 C05 C06 C07" | tr ' ' '\n' | grep -v $pid | tr '\n' ',' | sed 's/,$//')
+            # REEVAL_ALSO="C01 C06" limits the other image checks that are run
+            also=$(echo "${REEVAL_ALSO:-C01 C02 C03 C05 C06 C07}" | tr ' ' '\n' | grep -v $pid | tr '\n' ',' | sed 's/,$//')
             tools/ingest_refactor.py $PWD/refactors/$name $name --also=$also 2>&1 | grep -v "^WARNING" ;;
         *) tools/ingest_refactor.py $PWD/refactors/$name $name 2>&1 | grep -v "^WARNING" ;;
     esac
